@@ -66,6 +66,18 @@ func VerifC13PrimaryHalt() {
 	pos0 := db.Pos()
 	id := rt.I64("lock.id")
 	rt.Assume(id != 0)
+	// C11: a forwarded transaction is applied without taking any lock, on the strength of the advertised
+	// halt lock id alone; so the id may be advertised only while the halt's guard set holds the write locks:
+	// no lock may leave the exclusive state while a halt lock is advertised (only the halt's guard set can
+	// hold anything exclusively then; failed attempts of others only touch PENDING/SHARED in shared mode).
+	watch := true
+	for _, t := range verifAllLocks {
+		verifMutex(db, t).OnLockStateChange = func(prev, next RWMutexState) {
+			if watch && prev == RWMutexStateExclusive && next != RWMutexStateExclusive {
+				rt.Check(db.HaltLockID() == 0, "no write lock is released while a halt lock id is still advertised (the id is set after the write locks are taken and cleared before they are released)")
+			}
+		}
+	}
 
 	// state of the halt cell before the step: empty, or held under id
 	held := rt.Choose("held.before", 2) == 1
@@ -73,6 +85,7 @@ func VerifC13PrimaryHalt() {
 	if held {
 		var err error
 		first, err = db.AcquireHaltLock(ctx, id)
+		watch = false
 		rt.Check(err == nil && first != nil, "halt lock granted on an idle database")
 		rt.Check(first.ID == id && first.Pos == pos0, "the grant carries the lock id and the primary's position at the grant")
 		rt.Check(first.Expires != nil, "the grant carries an expiry")
@@ -88,6 +101,7 @@ func VerifC13PrimaryHalt() {
 		if g := db.GuardSet(5); g != nil {
 			g.Unlock()
 		}
+		watch = true
 	}
 	switch rt.Choose("step", 5) {
 	case 0: // acquire with the same id again (a retried request)
